@@ -13,13 +13,17 @@ import Pfb.PyCore.Analyze
 namespace Pfb.PyCore
 
 structure Checker where
-  /-- `_UseChecker.name`: the name the import binds (`asname or name`) -/
+  /-- `_UseChecker.name`: the name the import binds (`asname or name`); meaningless for an anonymous carrier -/
   bind : Str
   /-- `_UseChecker.lineno` -/
   line : Nat
   /-- position of the alias in its import statement (identity of the import together with `line`) -/
   idx : Nat
   used : Bool := false
+  /-- `_UseChecker.shadowed`: older unused checkers of the same name that this binding may or may not have replaced -/
+  shadowed : List Nat := []
+  /-- `_UseChecker(None, None, lineno)`: the carrier stored when a non-import value conditionally replaces unused imports -/
+  anon : Bool := false
   deriving DecidableEq, Repr, Inhabited
 
 structure UState where
@@ -41,8 +45,6 @@ structure UState where
   allMark : Bool := false
   /-- `_conditional_depth` -/
   cond : Nat := 0
-  /-- the bindings that preceded the enclosing `except … as n` handlers, innermost first -/
-  savedVals : List (Option Val) := []
   /-- `_deferred_names` (heads of the names read in function bodies seen so far), and whether the tree has them (`Fixes.deferredNames`) -/
   deferredNames : List Str := []
   dnOn : Bool := false
@@ -62,7 +64,15 @@ def findBinding (heap : Heap) (parts : List Str) : List Nat → Option Val
     | some v => some v
     | none => findBinding heap parts is
 
-def markUsed (cs : List Checker) (k : Nat) : List Checker := cs.modify k (fun c => { c with used := true })
+/-- `checker.used = True` through the property setter: the checker and, recursively, everything it shadows -/
+def markRec : Nat → List Checker → Nat → List Checker
+  | 0, cs, _ => cs
+  | f + 1, cs, k =>
+    match cs[k]? with
+    | none => cs
+    | some c => c.shadowed.foldl (fun cs j => markRec f cs j) (cs.modify k (fun c => { c with used := true }))
+
+def markUsed (cs : List Checker) (k : Nat) : List Checker := markRec (cs.length + 1) cs k
 
 def UState.mark (st : UState) (v : Val) : UState :=
   match v with
@@ -75,32 +85,49 @@ def sniU (st : UState) (ids : List Nat) (fullname : Str) : Bool × UState :=
   | some v => (false, st.mark v)
   | none => (true, st)
 
-def isUnusedAt (st : UState) (key : Str) (v : Val) : Option Nat :=
-  match v with
-  | .obj k => match st.checkers[k]? with
-    | some c => if !c.used && c.bind = key then some k else none
-    | none => none
-  | .none => none
+/-- `checker.name == key` (never true for an anonymous carrier) -/
+def nameIs (c : Checker) (key : Str) : Bool := !c.anon && decide (c.bind = key)
+
+/-- `_UseChecker.unused_shadowed()` -/
+def unusedShadowed (cs : List Checker) (k : Nat) : List Nat :=
+  match cs[k]? with
+  | some c => c.shadowed.filter (fun j => match cs[j]? with | some d => !d.used | none => false)
+  | none => []
+
+/-- the `pending` list of `_visit_Store`: what the value about to be overwritten still owes -/
+def pendingOf (cs : List Checker) (key : Str) (old : Option Val) : List Nat :=
+  match old with
+  | some (.obj k) =>
+    match cs[k]? with
+    | some c => unusedShadowed cs k ++ (if !c.used && nameIs c key then [k] else [])
+    | none => []
+  | _ => []
 
 /-- `_visit_Store`, first part: the proper prefixes of a dotted key are looked up (and thereby marked used) -/
 def lookupAncestors (st : UState) (key : Str) : UState :=
   ((prefixes (splitDots key)).dropLast).foldl (fun st p => (sniU st st.stack.ids (joinDots p)).2) st
 
-/-- `_visit_Store`, second part: an unused checker stored under its own name is about to be overwritten -/
-def reportOld (st : UState) (key : Str) : UState :=
-  match (st.heap.get st.stack.top).get key with
-  | some old =>
-    match isUnusedAt st key old with
-    | some k =>
-      if st.cond = 0 ∧ ¬ (st.dnOn = true ∧ (splitDots key).headD [] ∈ st.deferredNames) then { st with unused := st.unused ++ [k] }
-      else st
-    | none => st
-  | none => st
+/-- is the store conditional in the sense of `_visit_Store` -/
+def shadowing (st : UState) (key : Str) : Bool :=
+  decide (st.cond ≠ 0) || (st.dnOn && decide ((splitDots key).headD [] ∈ st.deferredNames))
+
+def writeTop (st : UState) (key : Str) (v : Val) : UState :=
+  { st with heap := st.heap.update st.stack.top (·.set key v) }
 
 /-- `_visit_Store(fullname, value)` -/
 def storeU (st : UState) (key : Str) (v : Val) : UState :=
-  let st := reportOld (lookupAncestors st key) key
-  { st with heap := st.heap.update st.stack.top (·.set key v) }
+  let st := lookupAncestors st key
+  let pending := pendingOf st.checkers key ((st.heap.get st.stack.top).get key)
+  if shadowing st key then
+    if pending.isEmpty then writeTop st key v
+    else
+      match v with
+      | .obj kv =>
+        writeTop { st with checkers := st.checkers.modify kv (fun c => { c with shadowed := pending ++ c.shadowed }) } key v
+      | .none =>
+        writeTop { st with checkers := st.checkers ++ [{ bind := [], line := st.line, idx := 0, anon := true, shadowed := pending }] }
+          key (.obj st.checkers.length)
+  else writeTop { st with unused := st.unused ++ pending } key v
 
 def cloneTopU (st : UState) : UState × List Nat :=
   let newId := st.heap.length
@@ -117,11 +144,41 @@ def deferCore (st : UState) (name : Str) : UState :=
 def deferU (st : UState) (name : Str) : UState :=
   deferCore { st with deferredNames := (splitDots name).headD [] :: st.deferredNames } name
 
-/-- scope exit: unused checkers of the popped scope that are stored under their own name -/
+/-- scope exit (`_NewScopeCtx`): for the entries stored under their own name, the shadowed checkers nobody read, then the
+    checker itself if unused; anonymous carriers are skipped altogether -/
 def collectUnused (st : UState) (items : List (Str × Val)) : UState :=
-  items.foldl (fun st kv => match isUnusedAt st kv.1 kv.2 with
-    | some k => { st with unused := st.unused ++ [k] }
-    | none => st) st
+  items.foldl (fun st kv =>
+    match kv.2 with
+    | .obj k =>
+      match st.checkers[k]? with
+      | some c =>
+        if nameIs c kv.1 then
+          let st := { st with unused := st.unused ++ unusedShadowed st.checkers k }
+          if !c.used then { st with unused := st.unused ++ [k] } else st
+        else st
+      | none => st
+    | .none => st) st
+
+/-- `_scan_unused_imports` over the top scope (before the final sort): like scope exit, and the shadowed checkers of
+    anonymous carriers are reported too -/
+def scanItems (st : UState) (items : List (Str × Val)) : UState :=
+  items.foldl (fun st kv =>
+    match kv.2 with
+    | .obj k =>
+      match st.checkers[k]? with
+      | some c =>
+        let st := if nameIs c kv.1 || c.anon then { st with unused := st.unused ++ unusedShadowed st.checkers k } else st
+        if c.used || c.anon then st
+        else if nameIs c kv.1 then { st with unused := st.unused ++ [k] } else st
+      | none => st
+    | .none => st) st
+
+/-- the end of `_visit_StoreImport`: `value.used = False`, and the same for everything in `value.shadowed` -/
+def resetUsed (cs : List Checker) (k : Nat) : List Checker :=
+  let cs := cs.modify k (fun c => { c with used := false })
+  match cs[k]? with
+  | some c => c.shadowed.foldl (fun cs j => cs.modify j (fun d => { d with used := false })) cs
+  | none => cs
 
 def stepU (st : UState) : Op → UState
   | .setLine n => { st with line := n }
@@ -135,7 +192,7 @@ def stepU (st : UState) : Op → UState
       let k := st.checkers.length
       let st := { st with checkers := st.checkers ++ [{ bind := bind, line := st.line, idx := idx }] }
       let st := keys.foldl (fun st key => storeU st key (.obj k)) st
-      { st with checkers := st.checkers.modify k (fun c => { c with used := false }) }
+      { st with checkers := resetUsed st.checkers k }
   | .pushScope includeClass newClass unhide =>
     let newId := st.heap.length
     let ns := st.stack.withNewScope st.heap includeClass unhide newId
@@ -176,12 +233,16 @@ def stepU (st : UState) : Op → UState
     else st
   | .condEnter => { st with cond := st.cond + 1 }
   | .condExit => { st with cond := st.cond - 1 }
-  | .saveHas name => { st with savedVals := (st.heap.get st.stack.top).get name :: st.savedVals }
-  | .restoreHas name =>
-    match st.savedVals with
-    | [] => st
-    | some v :: r => { st with savedVals := r, heap := st.heap.update st.stack.top (·.set name v) }
-    | none :: r => { st with savedVals := r }
+  | .handlerEnd name =>
+    let i := st.stack.top
+    let value := (st.heap.get i).get name
+    let st := { st with heap := st.heap.update i (fun sc => (sc.del name).delBelow name) }
+    match value with
+    | some (.obj k) =>
+      match st.checkers[k]? with
+      | some c => { st with checkers := c.shadowed.foldl markUsed st.checkers }
+      | none => st
+    | _ => st
 
 def runOpsU (st : UState) (ops : List Op) : UState := ops.foldl stepU st
 
@@ -192,7 +253,7 @@ def finishU (st : UState) : UState :=
   { st with deferred := [], useMarks := [] }
 
 /-- `_scan_unused_imports` (before the final sort) -/
-def scanUnusedU (st : UState) : UState := collectUnused st (st.heap.get st.stack.top).items
+def scanUnusedU (st : UState) : UState := scanItems st (st.heap.get st.stack.top).items
 
 /-- `scan_for_import_issues`: builtins, `_builtins2`, `_class_delayed`, the fresh `{}` namespace, the private top scope -/
 def initU (builtins : Scope) (allMark : Bool) (dnOn : Bool := false) : UState :=
